@@ -347,6 +347,147 @@ def gen_smsub(tier, rng):
                         yield Case(smsub_line(flags, key, ovr, kind, stream, param), cls="smsub-" + name)
 
 
+CB_DIRPROTO = {0: (0, b"RTMP"), 1: (1, b"RTMP"), 2: (1, b"FLV"), 3: (1, b"TS"), 4: (0, b"RTSP"), 5: (1, b"RTSP")}
+CB_FLAGBIT = {0: 0, 1: 1, 2: 2, 3: 3, 4: 4, 5: 5}
+
+
+def smcb_line(flags, key, override, cb, stream, param):
+    return smsub_line(flags, key, override, cb, stream, param).replace("c14.smsub ", "c14.smcb ", 1)
+
+
+def gen_smcb(tier, rng):
+    """the six ServerManager session callbacks with real session objects: own flag only / every flag but the
+    own one / all / none - a callback that consults the wrong flag or skips the check shows up"""
+    core = ("absent", "empty", "wrong", "right-lower", "right-upper", "right-other-stream", "dup-wrong-right", "malformed-pct",
+            "override-exact", "override-upper", "pct-encoded-right", "key-upper")
+    for ci, (key, ovr) in enumerate(CONFIGS[:2] + CONFIGS[4:5]):
+        for stream in (b"test110", b"T2"):
+            forms = [f for f in secret_forms(key, stream, ovr) if f[0] in core or tier != "quick"]
+            for cb in range(6):
+                own = 1 << CB_FLAGBIT[cb]
+                for flags in (own, 127 ^ own, 127, 0, 63 ^ own):
+                    for name, param in forms:
+                        if b"#" in param or b"?" in param or any(c < 0x21 or c == 0x7f for c in param):
+                            continue
+                        yield Case(smcb_line(flags, key, ovr, cb, stream, param), cls="smcb%d-%s" % (cb, name))
+
+
+# ----------------------------------------------------------------- serveHls histories
+IP_A, IP_B = b"10.1.2.3", b"10.9.9.9"
+SH_GOOD = {b"/hls/s1.m3u8": b"/T1/T2/outer/root/s1/playlist.m3u8", b"/hls/s1/playlist.m3u8": b"/T1/T2/outer/root/s1/playlist.m3u8",
+           b"/hls/s1/record.m3u8": b"/T1/T2/outer/root/s1/record.m3u8", b"/hls/s1-1-2.ts": b"/T1/T2/outer/root/s1/s1-1-2.ts",
+           b"/hls/s1/s1-1-2.ts": b"/T1/T2/outer/root/s1/s1-1-2.ts", b"/hls/a-b-1-2.ts": b"/T1/T2/outer/root/a-b/a-b-1-2.ts"}
+SH_OTHER = [b"/hls/..-1-2.ts", b"/hls/...m3u8", b"/hls/nosuch.m3u8", b"/hls/nosuch-1-2.ts", b"/hls/x.mp4", b"/hls/s1/"]
+
+
+def sh_get(ip, path, query=b""):
+    uri = encode_uri(path) + (b"?" + query if query else b"")
+    return "G:%s:%s:%s:%s" % (H(ip), H(path), H(query), H(uri))
+
+
+def sh_stream_of(path):
+    last = path.rsplit(b"/", 1)[-1]
+    if last in (b"playlist.m3u8", b"record.m3u8"):
+        return path.split(b"/")[-2]
+    return last[:-5] if last.endswith(b".m3u8") else None
+
+
+def servehls_line(flags, key, ovr, scens):
+    md5s, pqs = [], []
+    for sc in scens:
+        for o in sc.split(","):
+            f = o.split(":")
+            if f[0] == "G":
+                path, q = tok_bytes(f[2]), tok_bytes(f[3])
+                pqs.append((q, pq_tok(q)))
+                for st in (sh_stream_of(path), b""):
+                    if st is not None:
+                        md5s.append((key + st, md5raw(key + st)))
+    pqt = ",".join("%s>%s" % (H(q), t) for q, t in dict(pqs).items()) or "-"
+    return "c14.servehls %d %s %s %s %s %s -" % (flags, H(key), H(ovr), "|".join(scens), table(md5s), pqt)
+
+
+def gen_servehls(tier, rng):
+    for flags, key, ovr in ((0, b"k", b""), (64, b"q191201771", b""), (64, b"key", b"Ovr")):
+        right = b"lal_secret=" + md5hex(key + b"s1")
+        qs = [b"", right, b"lal_secret=bad"] + ([b"lal_secret=ovr"] if ovr else [])
+
+        def allget(ip, i=0):
+            out = []
+            for j, p in enumerate(list(SH_GOOD) + SH_OTHER):
+                out.append(sh_get(ip, p, qs[(i + j) % len(qs)] if flags else (b"" if j % 2 else b"x=1")))
+                if flags and p.endswith(b".m3u8"):
+                    out.append(sh_get(ip, p, right))
+            return ",".join(out)
+        scens = [
+            # before / during (same second, next second = still listed) / after expiry, and another address meanwhile
+            ",".join([allget(IP_A), "B:%s:1" % H(IP_A), allget(IP_A, 1), allget(IP_B, 2), "S:1", allget(IP_A, 3), "S:1", allget(IP_A)]),
+            ",".join(["B:%s:0" % H(IP_A), allget(IP_A), "S:1", allget(IP_A, 1)]),
+            ",".join(["B:%s:-1" % H(IP_A), allget(IP_A)]),
+            ",".join(["B:%s:5" % H(IP_B), allget(IP_A), allget(IP_B, 1), "S:2", allget(IP_B, 2)]),
+            ",".join(["B:%s:2" % H(IP_A), "S:1", allget(IP_A), "B:%s:0" % H(IP_A), allget(IP_A, 1), "S:1", allget(IP_A, 2)]),
+            ",".join(["B:%s:1" % H(IP_A), "S:1", "B:%s:2" % H(IP_A), "S:1", allget(IP_A), "S:1", allget(IP_A, 1)]),
+            # fragments only, by a client that never asks for the playlist again
+            ",".join([sh_get(IP_A, b"/hls/s1.m3u8", right), "B:%s:2" % H(IP_A), sh_get(IP_A, b"/hls/s1-1-2.ts"), sh_get(IP_A, b"/hls/s1/s1-1-2.ts"),
+                      "S:1", sh_get(IP_A, b"/hls/s1-1-2.ts"), sh_get(IP_A, b"/hls/a-b-1-2.ts"), "S:2", sh_get(IP_A, b"/hls/s1-1-2.ts"), sh_get(IP_A, b"/hls/s1/s1-1-2.ts")]),
+            allget(IP_A, 1),
+        ]
+        yield Case(servehls_line(flags, key, ovr, scens), cls="servehls-f%d" % flags)
+    if tier == "thorough":
+        for _ in range(4):
+            flags, key, ovr = rng.choice([(0, b"k", b""), (64, b"key", b"Ovr")])
+            right = b"lal_secret=" + md5hex(key + b"s1")
+            scens = []
+            for _ in range(10):
+                ops, slept = [], 0
+                for _ in range(rng.randrange(3, 14)):
+                    r = rng.random()
+                    ip = rng.choice([IP_A, IP_B])
+                    if r < 0.25:
+                        ops.append("B:%s:%d" % (H(ip), rng.choice([-1, 0, 1, 2, 9])))
+                    elif r < 0.85 or slept >= 3:
+                        ops.append(sh_get(ip, rng.choice(list(SH_GOOD) + SH_OTHER), rng.choice([b"", right, b"lal_secret=bad"])))
+                    else:
+                        ops.append("S:1")
+                        slept += 1
+                scens.append(",".join(ops))
+            yield Case(servehls_line(flags, key, ovr, scens), cls="servehls-random")
+
+
+def servehls_check(flags, key, ovr, sc, out):
+    """the property on one serveHls history"""
+    now, until = 0, {}
+    res = out.split(",") if out != "-" else []
+    k = 0
+    for o in sc.split(","):
+        f = o.split(":")
+        if f[0] == "B":
+            until[tok_bytes(f[1])] = now + int(f[2])
+        elif f[0] == "S":
+            now += int(f[1])
+        else:
+            if k >= len(res):
+                return "missing answer"
+            r = res[k]
+            k += 1
+            ip, path, q = tok_bytes(f[1]), tok_bytes(f[2]), tok_bytes(f[3])
+            content = r.startswith("200:")
+            blocked = ip in until and now <= until[ip]
+            if blocked and content:
+                return "black-listed address %r was served %r %d s before its entry expires" % (ip, path, until[ip] - now)
+            st = sh_stream_of(path)
+            auth_ok = True
+            if st is not None and flags & 64:
+                auth_ok = simple_expected_admit(flags, key, ovr, 2, b"HLS", st, q)
+            if not auth_ok and content:
+                return "playlist %r served although simple auth must reject query %r" % (path, q)
+            if content and not tok_bytes(r[4:]).startswith(b"/T1/T2/outer/root/"):
+                return "file %r outside the root served for %r" % (tok_bytes(r[4:]), path)
+            if not blocked and auth_ok and path in SH_GOOD and r != "200:" + H(SH_GOOD[path]):
+                return "request %r of an address that is not black-listed (any more) is answered %s" % (path, r)
+    return None
+
+
 def parse_simple(f):
     return (int(f[1]), tok_bytes(f[2]), tok_bytes(f[3]), int(f[4]), tok_bytes(f[5]), tok_bytes(f[6]), tok_bytes(f[7]))
 
@@ -675,8 +816,10 @@ def bl_expected(sc):
 # ----------------------------------------------------------------- module interface
 def gen_cases(tier, rng):
     yield from gen_bl(tier, rng)
+    yield from gen_servehls(tier, rng)
     yield from gen_simple(tier, rng)
     yield from gen_smsub(tier, rng)
+    yield from gen_smcb(tier, rng)
     yield from gen_rtsp(tier, rng)
     yield from gen_paths(tier, rng)
 
@@ -712,6 +855,26 @@ def oracle(c, out):
             return (o == ["0x0", "0x1", "1", "1", "1"], "an authorised subscriber is not admitted / listed / answered / kickable: " + out)
         return (o[0] != "0x0" and o[1] == "0x0" and o[2] == "0",
                 "a subscriber that must be rejected is admitted, listed by the stat API or receives bytes: " + out)
+    if op == "c14.smcb":
+        flags, key, ovr, cb = int(f[1]), tok_bytes(f[2]), tok_bytes(f[3]), int(f[4])
+        d, proto = CB_DIRPROTO[cb]
+        exp = simple_expected_admit(flags, key, ovr, d, proto, tok_bytes(f[5]), tok_bytes(f[6]))
+        o = out.split(" ")
+        if len(o) != 2:
+            return (False, "unexpected output " + out)
+        if exp:
+            return (o == ["0x0", "1"], "callback %d: an authorised session is not admitted / attached: %s" % (cb, out))
+        return (o[0] != "0x0" and o[1] == "0", "callback %d: a session that must be rejected is admitted or attached to its group: %s" % (cb, out))
+    if op == "c14.servehls":
+        flags, key, ovr = int(f[1]), tok_bytes(f[2]), tok_bytes(f[3])
+        scens, outs = f[4].split("|"), out.split("|")
+        if len(scens) != len(outs):
+            return (False, "unexpected output " + out[:200])
+        for sc, o in zip(scens, outs):
+            why = servehls_check(flags, key, ovr, sc, o)
+            if why:
+                return (False, "serveHls: " + why)
+        return (True, "")
     if op == "c14.secret":
         return (tok_bytes(out) == md5hex(tok_bytes(f[1]) + tok_bytes(f[2])), "SimpleAuthCalcSecret is not md5(key+stream)")
     if op == "c14.describe":
